@@ -91,6 +91,7 @@ let () =
   List.iteri (fun k line ->
     match String.index_opt line '|' with
     | None -> ()
+    | Some 1 when line.[0] = 'S' -> Printf.printf "%d srv\n" k   (* a case of the server-level harness *)
     | Some p ->
       let head = String.sub line 0 p in
       let body = String.sub line (p+1) (String.length line - p - 1) in
